@@ -139,7 +139,8 @@ Record url_info := {
   u_scheme : pystr; u_path : pystr; u_query : pystr; u_fragment : pystr;
   u_hostname : option pystr;            (* data.hostname (None or "" count as absent) *)
   u_port : port_answer;                 (* data.port *)
-  u_link_local : option bool            (* ip_address(hostname).is_link_local; None = ValueError *)
+  u_link_local : option bool            (* ip_address(hostname) is an IPv6 address and is_link_local (after D38: an IPv4
+                                           host never takes a scope id); None = ValueError *)
 }.
 
 (* urlunsplit with a non-empty netloc *)
@@ -156,7 +157,8 @@ Definition unsplit (u : url_info) (netloc : pystr) : pystr :=
 Section WithUrlOracle.
   Variable url_of : pystr -> url_info.
 
-  (* get_adjusted_url (as repaired: anything that cannot be split is returned unchanged) *)
+  (* get_adjusted_url (as repaired: anything that cannot be split is returned unchanged; only an IPv6 link-local
+     host takes the sender's scope id) *)
   Definition adjusted_url (url : pystr) (a : addr) : pystr :=
     match a_v6 a with
     | None => url
